@@ -218,6 +218,7 @@ def replay(pid, path):
     data = json.loads(open(path).read())
     ctx = Ctx(pid + "-replay", "quick", 0, CHECKS[pid][1])
     ctx.pid = pid
+    ctx.set_known(pid)
     try:
         if data.get("case") is not None and data.get("driver"):
             tf = ctx.drive(data["driver"], [data["case"]], opts=data.get("opts"))
